@@ -81,6 +81,23 @@ Example readonly_nonvacuous :
   (exists w, entry ex_state A 1 = Some w /\ is_ro w = true /\ vexp w = true).
 Proof. exact (conj ex_state_inv (conj (proj1 (proj2 ex_state_facts)) (proj1 (proj2 (proj2 ex_state_facts))))). Qed.
 
+(* A visible read-only variable refuses unset and assignment -- whether or not
+   it has a value (`readonly v` without assignment). *)
+Theorem readonly_refuses_unset : forall s n w loc,
+  get s n = Some w -> vro w = Some loc ->
+  step s (OUnset n SGlobal) = Some (s, RUnsetErr loc).
+Proof. exact unset_refused_lemma. Qed.
+
+Theorem readonly_refuses_assign : forall s n w loc x l,
+  Inv s -> get s n = Some w -> vro w = Some loc ->
+  exists s', step s (OGetOrNew n SGlobal [MAssign x l]) = Some (s', RMuts [AErr loc]).
+Proof. exact assign_refused_lemma. Qed.
+
+Example readonly_valueless_nonvacuous :
+  Inv ex_valueless /\
+  exists w, get ex_valueless A = Some w /\ vval w = None /\ vro w = Some 9%N.
+Proof. exact ex_valueless_facts. Qed.
+
 (* A read-only variable of the base context keeps its value for ever. *)
 Theorem readonly_global_forever : forall ops s s' n w,
   Inv s -> run s ops = Some s' ->
@@ -301,3 +318,5 @@ Print Assumptions script_oracle_sound.
 Print Assumptions panic_free.
 Print Assumptions reads_never_panic.
 Print Assumptions callers_never_panic.
+Print Assumptions readonly_refuses_unset.
+Print Assumptions readonly_refuses_assign.
